@@ -11,7 +11,7 @@ configuration), and turns every explored path into obligations:
 import sympy as sp
 
 from . import cast
-from .engine import ArrV, FE, IntV, Junk, Loc, NULL, PtrV, SymI, Unsupported, AggV, NonZeroV, PredV
+from .engine import ArrV, FE, IntV, Junk, NULL, NonZeroV, PtrV, SymI, Unsupported
 
 
 class Ob:
